@@ -8,7 +8,7 @@ Definition fin {A} (r : res A) : Prop := r <> OutOfFuel.
 Lemma bind_fin {A B} (r : res A) (k : A -> res B) : fin (bind r k) -> fin r.
 Proof. destruct r; simpl; unfold fin; congruence. Qed.
 
-Strategy opaque [eval_pipeline eval_cmds range_plan template_plan truthy while_cap set_heap set_vars env_of].
+Local Strategy opaque [eval_pipeline eval_cmds range_plan template_plan truthy while_cap set_heap set_vars env_of].
 Section Mono.
   Variable defs : list (bytes * list tnode).
 
